@@ -38,7 +38,7 @@ PrintAlphabet(t) ==
      {F1("Print", c) : c \in {97, 113, 233}}                 \* 'a', 'q' (in the drawing range), e-acute
   \cup {FS("Decset", <<7>>), FS("Decrst", <<7>>), FS("Sm", <<4>>), FS("Rm", <<4>>),
         F0("So"), F0("Si"), F1("Gzd4", 1), F1("Gzd4", 0), F1("G1d4", 1), F0("Cr"), F0("Lf"), F0("Bs")}
-  \cup {F1("Rep", n) : n \in {0, 2, t.cols, t.cols + 1}}
+  \cup {F1("Rep", n) : n \in {0, 2, t.cols, t.cols + 1, 2 * t.cols + 1}}
   \cup {F2("Cup", a, b) : a \in {1, t.rows}, b \in {1, t.cols}}
   \cup {F2("Decstbm", 1, t.rows - 1), F2("Decstbm", 2, t.rows), F2("Decstbm", 0, 0)}
   \cup {FS("Sgr", <<<<48, 1>>>>), FS("Sgr", <<<<0, 0>>>>)}
@@ -90,6 +90,14 @@ SgrAlphabet(t) ==
      {FS("Sgr", <<a>>) : a \in SgrOpsSmall}
   \cup {FS("Sgr", <<a, b>>) : a \in {<<0, 0>>, <<1, 0>>, <<38, 1>>, <<25, 0>>}, b \in {<<2, 0>>, <<5, 0>>, <<49, 0>>, <<48, 9>>}}
   \cup {F1("Print", 97), F1("El", 2), F0("Lf")}
+(* "every cell printed or BLANKED afterwards reports exactly that pen": a few pens x every function that
+   writes or blanks cells, with a region that starts at the top and stops short of the last row *)
+SgrBlankAlphabet(t) ==
+     {FS("Sgr", <<a>>) : a \in {<<0, 0>>, <<48, 9>>, <<7, 0>>, <<38, 256 + 66051>>}}
+  \cup {F1("Print", 97), F1("Rep", 2), F0("Lf"), F0("Ri"), F0("Nel"), F2("Decstbm", 1, t.rows - 1), F2("Decstbm", 2, t.rows), F2("Cup", t.rows - 1, 1), F2("Cup", 1, t.cols)}
+  \cup {F1(f, 1) : f \in {"Su", "Sd", "Il", "Dl", "Ich", "Dch", "Ech"}} \cup {F1("El", 0), F1("El", 1), F1("Ed", 0), F1("Ed", 1), F1("Ed", 2)}
+  \cup {FS("Decset", <<1047>>)}
+SgrBlankSizes == {<<2, 3>>}
 
 \* ------------------------------------------------ C16-C19: tabs, contexts, screens, resets
 MiscAlphabet(t) ==
@@ -153,7 +161,7 @@ RisResizes(t) == {<<c, r>> \in {<<2, 3>>} : <<c, r>> # <<t.cols, t.rows>>}
 
 \* ------------------------------------------------------------- C18: tab stops x widths
 TabsAlphabet(t) ==
-     {F0("Hts"), F0("Ht"), F1("Cbt", 1), F1("Cht", 2), F1("Tbc", 0), F1("Tbc", 3), F1("Ctc", 0), F1("Ctc", 2), F0("Cr")}
+     {FS("Decset", <<1047>>), FS("Decrst", <<1047>>), F0("Hts"), F0("Ht"), F1("Cbt", 1), F1("Cht", 2), F1("Tbc", 0), F1("Tbc", 3), F1("Ctc", 0), F1("Ctc", 2), F0("Cr")}
   \cup {F1("Cha", k) : k \in {n \in {2, 8, 9, t.cols - 1, t.cols} : n >= 1}}
 TabsSizes == {<<w, 1>> : w \in {1, 7, 8, 9, 16, 17}}
 TabsResizes(t) == {<<w, 1>> : w \in {1, 7, 8, 9, 15, 16, 17, 24, 25, 32} \ {t.cols}}
